@@ -10,10 +10,12 @@ from __future__ import annotations
 
 import copy
 import random
+import weakref
 
 import numpy as np
 
 from simkit import procstate
+from simkit.addr import build_at_released_address
 from simkit.core import Counter, EventLog, Violation, hash_array
 from simkit.rngseam import BEHAVIOURS, RngSeam
 from simkit.store import SimStore, StoreSeam
@@ -122,16 +124,38 @@ def _op_bvp(ctx, op, state):
 
     _, mode, beh, bseed, o = op
     P = ctx.spec["problem"]
-    tspec = P["tspec"] if mode == "tf" else None
+    tlist = [P["tspec"]] + list(P.get("alts") or [])
+    ti = int(o.get("ti", 0)) % len(tlist)
+    tspec = tlist[ti] if mode == "tf" else None
     a, b = P["a"], P["b"]
     x = np.linspace(a, b, P["n"])
     if tspec is not None:
-        if o.get("share_tf") and state.get("tf") is not None:
-            tf = state["tf"]
-            ctx.probes.hit("transform-object-shared-between-solves")
+        shared = state.setdefault("tf_shared", {})
+        if o.get("share_tf"):
+            # a long-lived transform object reused by several solves (its remembered scale persists)
+            if ti in shared:
+                ctx.probes.hit("transform-object-shared-between-solves")
+            tf = shared.setdefault(ti, OP.build_transform(tspec))
         else:
-            tf = OP.build_transform(tspec)
-            state["tf"] = tf
+            # a short-lived transform. The simulator also owns *when* the previous short-lived transform (and the
+            # solution closure that refers to it) is released: it is kept alive until this very moment and dropped
+            # immediately before the new object is built, so that CPython's allocator hands the new transform the
+            # address of the released one - a legal, otherwise timing-dependent event (object identity reuse).
+            cls, cargs, ckw = OP.transform_ctor(tspec)  # everything except the outermost object is ready beforehand
+            held = state.pop("held", None)
+            target = id(held[0]) if held is not None else None
+            wr = weakref.ref(held[0]) if held is not None else None
+            held = None
+            if wr is not None and wr() is not None:
+                ctx.probes.hit("released-transform-still-referenced")
+                target = None
+            tf, landed = build_at_released_address(target, cls, cargs, ckw)
+            if target is not None:
+                ctx.probes.hit("short-lived-transform-built-right-after-release")
+                if landed:
+                    ctx.probes.hit("new-transform-allocated-at-released-address")
+        if ti:
+            ctx.probes.hit("solve-through-alternate-transform")
     else:
         tf = None
     twin = _explicit_twin(tspec, x.max())
@@ -150,7 +174,7 @@ def _op_bvp(ctx, op, state):
         if "fx" not in sh:
             sh["fx"], sh["coeffs"] = fx, coeffs
         fx, coeffs = sh["fx"], sh["coeffs"]
-        bd = sh.setdefault(("bd", mode), bd)
+        bd = sh.setdefault(("bd", mode if mode == "direct" else f"tf{ti}"), bd)
         ctx.probes.hit("caller-inputs-shared-between-solves")
     derivs = bool(o.get("derivs", True))
     guess = None
@@ -161,6 +185,7 @@ def _op_bvp(ctx, op, state):
     oc = _outcome(lambda: solve_ode_bvp(x, fx, coeffs, bd, transform=tf, tol=P["tol"], initial_guess_y=guess, no_derivatives=not derivs))
     drew = ctx.rng.calls > calls0
     sig = f"{P['order']}:{_tname(tspec)}"
+    mode_key = mode if mode == "direct" else f"tf{ti}"
     if oc[0] == "raise":
         ctx.violate("bvp-raise", "bvp", f"{sig}:{type(oc[1]).__name__}", f"solve_ode_bvp raised {oc[1]!r} on an admitted problem (order {P['order']}, transform {tspec}, rng draw {beh}:{bseed})")
         return
@@ -173,7 +198,9 @@ def _op_bvp(ctx, op, state):
         ctx.violate("eval-raise", "bvp", f"{sig}:{type(exc).__name__}", f"solution callable raised {exc!r} (order {P['order']}, transform {tspec}, derivatives={derivs})")
         return
     ys = oe[1]
-    errs = _errors(P, ys, xe)
+    xc = np.linspace(a, b, 25)
+    yc = np.asarray(sol(xc.copy()), dtype=float)
+    errs = [max(e1, e2) for e1, e2 in zip(_errors(P, ys, xe), _errors(P, yc, xc))]
     ratio = max(errs) / P["tol"]
     ctx.max_ratio = max(ctx.max_ratio, ratio)
     if not np.isfinite(ratio) or ratio > ODE_ENVELOPE:
@@ -182,10 +209,8 @@ def _op_bvp(ctx, op, state):
             f"solve_ode_bvp error {max(errs):.3g} (per derivative {['%.2g' % e for e in errs]}) exceeds {ODE_ENVELOPE:g}*tol={ODE_ENVELOPE * P['tol']:.2g} "
             f"(order {P['order']}, transform {tspec}, bc {P['bc']}, rng draw {beh}:{bseed}, guess={o.get('guess')})",
         )
-    key = (mode, derivs)
+    key = (mode_key, derivs)
     prev = state["results"].get(key)
-    xc = np.linspace(a, b, 25)
-    yc = np.asarray(sol(xc.copy()), dtype=float)
     y0 = np.atleast_2d(yc)[0]
     if derivs and np.atleast_2d(ys).shape[0] != P["order"]:
         ctx.violate("missing-derivatives", "bvp", sig, f"solution callable returned {np.atleast_2d(ys).shape[0]} rows for an order-{P['order']} problem with derivatives requested ({len(xe)} points)")
@@ -197,14 +222,14 @@ def _op_bvp(ctx, op, state):
         ctx.nontrivial = True
     else:
         state["results"][key] = y0
-    other = state["results"].get(("direct" if mode == "tf" else "tf", derivs))
-    if other is not None:
+    others = [v for (mk, dv), v in state["results"].items() if mk != mode_key and dv == derivs]
+    for other in others:
         d = float(np.max(np.abs(other - y0))) / max(1.0, float(np.max(np.abs(other))))
         if d > 2 * ODE_ENVELOPE * P["tol"]:
-            ctx.violate("transform-vs-direct", "bvp", sig, f"solution through transform {P['tspec']} differs from the direct solve by {d:.3g}")
+            ctx.violate("transform-vs-direct", "bvp", sig, f"solution through transform {tspec} ({mode_key}) differs from the solution obtained directly / through another transform by {d:.3g}")
         ctx.probes.hit("transform-vs-direct-compared")
     h = hash_array(yc)
-    rk = (mode, beh, bseed, derivs, o.get("guess"), bool(o.get("share_tf")))
+    rk = (mode_key, beh, bseed, derivs, o.get("guess"), bool(o.get("share_tf")))
     if o.get("share_tf"):
         pass  # sharing changes the object history, bit-equality is only demanded for fresh transforms
     elif rk in state["bits"]:
@@ -217,15 +242,19 @@ def _op_bvp(ctx, op, state):
     if drew:
         ctx.probes.hit("guess-drawn-from-seam")
         ctx.states.add(f"{P['order']}:{_tname(tspec)}:{beh}")
-    ctx.log.add(ctx.step, "bvp", mode, beh, bseed, h)
+    ctx.log.add(ctx.step, "bvp", mode_key, beh, bseed, h)
+    if tf is not None and not o.get("share_tf"):
+        state["held"] = (tf, sol)  # released by the simulator right before the next short-lived transform is built
 
 
 def _op_ivp(ctx, op, state):
     from grid.ode import solve_ode_ivp
 
-    _, mode, method = op
+    _, mode, method = op[:3]
     P = ctx.spec["problem"]
-    tspec = P["tspec"] if mode == "tf" else None
+    tlist = [P["tspec"]] + list(P.get("alts") or [])
+    ti = int(op[3]) % len(tlist) if len(op) > 3 else 0
+    tspec = tlist[ti] if mode == "tf" else None
     a, b = P["a"], P["b"]
     tf = OP.build_transform(tspec) if tspec is not None else None
     twin = _explicit_twin(tspec, b)
@@ -324,12 +353,12 @@ class OdeSeamEngine:
             u = rng.random()
             if u < 0.58:
                 beh = rng.choice(BEHAVIOURS)
-                o = {"derivs": rng.random() < 0.8, "share_tf": rng.random() < 0.3, "own_inputs": rng.random() < 0.25}
+                o = {"derivs": rng.random() < 0.8, "share_tf": rng.random() < 0.3, "own_inputs": rng.random() < 0.25, "ti": rng.randrange(3)}
                 if rng.random() < 0.08:
                     o["guess"] = "zeros"
                 ops.append(["bvp", rng.choice(modes), beh, rng.randrange(1000), o])
             elif u < 0.78:
-                ops.append(["ivp", rng.choice(modes), rng.choice(["DOP853", "RK45", "Radau", "LSODA"])])
+                ops.append(["ivp", rng.choice(modes), rng.choice(["DOP853", "RK45", "Radau", "LSODA"]), rng.randrange(3)])
             elif u < 0.88:
                 ops.append(["perturb", rng.randrange(200), rng.choice([None, 0, 7])])
             else:
